@@ -40,6 +40,12 @@ typedef struct ELEM { int v; unsigned char g_state; } ELEM;
 #define ELEM_SET(p, st, val) ((p)->g_state = (st), (p)->v = (val))
 #endif
 
+#ifdef REPLAY
+static inline int ELEM_nondet_value(void) { return 63; }      /* native replay: some value other than the old one is enough */
+#else
+int nondet_int(void);
+static inline int ELEM_nondet_value(void) { int v = nondet_int(); __CPROVER_assume(v >= 0 && v <= 63); return v; }
+#endif
 static inline void ELEM_construct_default(ELEM *p)
 {
     __CPROVER_assert(!ELEM_TRACKED(p) || ELEM_ST(p) == ELEM_RAW, "lifetime: construct over an element that is still alive");
@@ -73,6 +79,13 @@ static inline void ELEM_move_assign(ELEM *p, ELEM *src)
     __CPROVER_assert(!ELEM_TRACKED(p) || ELEM_ST(p) == ELEM_LIVE || ELEM_ST(p) == ELEM_MOVED, "lifetime: move-assignment to an unconstructed or destroyed element");
     __CPROVER_assert(!ELEM_TRACKED(src) || ELEM_ST(src) == ELEM_LIVE, "lifetime: move-assignment from an unconstructed / destroyed / moved-from element");
     if (p != src) { ELEM_SET(p, ELEM_LIVE, ELEM_V(src)); ELEM_SET(src, ELEM_MOVED, ELEM_V(src)); }
+    else {
+        /* self-move-assignment: the object stays alive but its value is "valid but unspecified" ([lib.types.movedfrom];
+         * std::vector<int>, long std::string ... come out empty), so a container that self-moves elements where the
+         * reference container does nothing exposes a different element sequence */
+        int g_unspec = ELEM_nondet_value();
+        ELEM_SET(p, ELEM_LIVE, g_unspec);
+    }
 }
 static inline void ELEM_destroy(ELEM *p)
 {
